@@ -5,6 +5,7 @@ import WsModel.Monitor
 import WsModel.Handshake.Model
 import WsModel.Handshake.Run
 import WsModel.TwoParty
+import WsModel.FrameSocket
 
 /-! Line-protocol driver: replays harness transcripts through the model and prints the model's
 observations in the same canonical form, so the two streams can be diffed. -/
@@ -1091,7 +1092,8 @@ partial def runFsCase (lines : Array String) : Array String := Id.run do
   -- `FrameCodec::new(READ_BUF_LEN)`: no write batching, no bound on the write buffer
   let mut codec : Codec := { maxOut := usizeMax, writeLen := 0 }
   -- what the implementation did, for the monitors: (kind, tokens after the kind, its res line, its wire bytes)
-  let mut implOps : Array (String × List String × List String × Bytes) := #[]
+  let mut implOps : Array (String × List String × List String × Bytes × List String) := #[]
+  let mut inbound : Bytes := []      -- pre-read bytes followed by what the peer sends
   let mut i := 0
   while i < lines.size do
     let line := lines[i]!
@@ -1101,7 +1103,7 @@ partial def runFsCase (lines : Array String) : Array String := Id.run do
       out := out.push line
       match kv r "pre" with
       | some "none" => pure ()
-      | some h => codec := { codec with inBuf := unhex h }
+      | some h => codec := { codec with inBuf := unhex h }; inbound := unhex h ++ inbound
       | none => pure ()
       i := i + 1
     | "op" :: kind :: rest =>
@@ -1110,19 +1112,21 @@ partial def runFsCase (lines : Array String) : Array String := Id.run do
       let mut ev : Events := {}
       let mut ires : List String := []
       let mut iwire : Bytes := []
+      let mut iio : List String := []
       while j < lines.size do
         match words lines[j]! with
-        | "io" :: evs => ev := parseIo evs; j := j + 1
+        | "io" :: evs => ev := parseIo evs; iio := evs; j := j + 1
         | "res" :: r => ires := r; j := j + 1
         | "wire" :: w :: _ => iwire := unhex w; j := j + 1
         | "wire" :: _ => j := j + 1
         | _ => break
       i := j
-      implOps := implOps.push (kind, rest, ires, iwire)
+      implOps := implOps.push (kind, rest, ires, iwire, iio)
       let t0 : Transport := { rd := ev.rd, wr := ev.wr, fl := ev.fl }
       let frameOf : Option Frame := match parseMessage rest with
         | some (.frame f) => some f
         | _ => none
+      let s0 : FSock := ⟨codec, t0⟩
       let (codec', t1, res) : Codec × Transport × String :=
         match kind, frameOf with
         | "fread", _ =>
@@ -1130,28 +1134,17 @@ partial def runFsCase (lines : Array String) : Array String := Id.run do
             | some "none" => none
             | some n => n.toNat?
             | none => none
-          let (c, t, r) := codec.readFrame t0 max false true
-          (c, t, showResFrameOpt r)
+          let (s, r) := s0.read max
+          (s.c, s.t, showResFrameOpt r)
         | "fwrite", some f =>
-          let (c, t, r) := codec.bufferFrame t0 f
-          (c, t, showResUnitP r)
+          let (s, r) := s0.write f
+          (s.c, s.t, showResUnitP r)
         | "fsend", some f =>
-          match codec.bufferFrame t0 f with
-          | (c, t, .ok ()) =>
-            match c.writeOutBuffer t with
-            | (c, t, .ok ()) =>
-              match t.flush with
-              | (t, .ok) => (c, t, "ok unit")
-              | (t, .err k) => (c, t, "err " ++ showErr (.io k))
-            | (c, t, r) => (c, t, showResUnitP r)
-          | (c, t, r) => (c, t, showResUnitP r)
+          let (s, r) := s0.send f
+          (s.c, s.t, showResUnitP r)
         | "fflush", _ =>
-          match codec.writeOutBuffer t0 with
-          | (c, t, .ok ()) =>
-            match t.flush with
-            | (t, .ok) => (c, t, "ok unit")
-            | (t, .err k) => (c, t, "err " ++ showErr (.io k))
-          | (c, t, r) => (c, t, showResUnitP r)
+          let (s, r) := s0.flush
+          (s.c, s.t, showResUnitP r)
         | _, _ => (codec, t0, "bad-op")
       codec := codec'
       let calls := t1.log.reverse.map showCall
@@ -1162,6 +1155,7 @@ partial def runFsCase (lines : Array String) : Array String := Id.run do
       out := out.push s!"res {res}"
       out := out.push s!"wire {hex t1.accepted}"
     | tag :: _ =>
+      if tag == "peer" then inbound := inbound ++ unhex ((toks.getD 1 "-"))
       if tag == "io" || tag == "res" || tag == "wire" then i := i + 1
       else
         out := out.push line
@@ -1174,9 +1168,12 @@ partial def runFsCase (lines : Array String) : Array String := Id.run do
     let mut expected : List (Bool × Nat × Nat × Bytes × Bytes) := []
     let mut wire : Bytes := []
     let mut live := true
-    for (kind, rest, res, w) in implOps do
+    for (kind, rest, res, w, iio) in implOps do
       if live then
         wire := wire ++ w
+        -- an I/O error handed to the caller comes from the transport
+        for m in Mon.monIoOrigin { ops := #[{ body := [if kind == "fread" then "read" else "write"], io := iio, res := res }] } do
+          if bad.isNone then bad := some ((m.splitOn " FAIL ").getD 1 "io-error-not-from-the-transport")
         if res.head? == some "panic" then live := false
         else
           if kind == "fwrite" || kind == "fsend" then
@@ -1197,9 +1194,39 @@ partial def runFsCase (lines : Array String) : Array String := Id.run do
             if onWire.length != expected.length || !tail.isEmpty then
               bad := bad <|> some "frame-socket-flush-ok-but-data-unsent"
     return bad
+  -- the frames `read` hands out are, one by one, the frames of the inbound stream as the
+  -- independent header reader sees them (flags, opcode, key, payload bytes as on the wire), whatever
+  -- length form the sender chose — up to the first error
+  let badRead : Option String := Id.run do
+    let (fs, _) := Mon.wireFrames inbound
+    let mut k := 0
+    let mut bad : Option String := none
+    let mut live := true
+    for (kind, _, res, _, _) in implOps do
+      if live && kind == "fread" then
+        match res with
+        | ["ok", "frame", bits, opc, mask, payload] =>
+          match fs[k]? with
+          | some f =>
+            let b := bits.toList
+            let bit (n : Nat) (v : Nat) : Nat := if b[n]? == some '1' then v else 0
+            let key := if mask == "-" then [] else unhex mask
+            let raw := unhex payload
+            let unmasked : Bytes := if key.isEmpty then raw else
+              (raw.zipIdx.map fun (x, i) => x ^^^ (key.getD (i % 4) 0))
+            if !((b[0]? == some '1') == f.fin && bit 1 4 + bit 2 2 + bit 3 1 == f.rsv && opc.toNat?.getD 255 == f.opcode
+                 && key == f.key && unmasked == f.payload) then
+              bad := bad <|> some s!"frame-socket-read-differs-from-stream frame={k}"
+            k := k + 1
+          | none => bad := bad <|> some s!"frame-socket-read-invented-a-frame frame={k}"
+        | "ok" :: _ => pure ()
+        | "err" :: e :: _ => if e != "Io.WouldBlock" then live := false
+        | _ => live := false
+    return bad
+  let bad := bad <|> badRead
   let mons : Array String := match bad with
-    | some b => #[s!"mon C10 FAIL {b}", s!"mon C01 FAIL {b}", s!"mon C19 FAIL {b}", s!"mon C14 FAIL {b}"]
-    | none => #["mon C10 ok", "mon C01 ok", "mon C19 ok", "mon C14 ok"]
+    | some b => #[s!"mon C10 FAIL {b}", s!"mon C01 FAIL {b}", s!"mon C19 FAIL {b}", s!"mon C14 FAIL {b}", s!"mon C18 FAIL {b}", s!"mon C05 FAIL {b}"]
+    | none => #["mon C10 ok", "mon C01 ok", "mon C19 ok", "mon C14 ok", "mon C18 ok", "mon C05 ok"]
   -- the verdicts go in front of the closing `end` line
   if out.back? == some "end" then out := out.pop ++ mons ++ #["end"] else out := out ++ mons
   return out
